@@ -41,6 +41,7 @@ def main() -> int:
     for i in range(260 if quick else 6000):
         d, feats = docs.random_doc(("C07", seed(), i), hostile=[0, 0.3][i % 2], n_ops=r.randint(1, 6))
         descs = []
+        behavioural = False
         for k in range(r.choice([0, 1, 1, 2, 3, 4])):
             out = insert_bad(d, r, r.choice(positions), r.choice(list(BAD_SCHEMAS)), i * 10 + k)
             if out:
@@ -49,7 +50,7 @@ def main() -> int:
         ops = list(docs.iter_ops(d))
         if ops and r.random() < 0.5:
             path, m, op, item = r.choice(ops)
-            what = r.choice(["unsupported_request_media", "unsupported_response_media", "default_status", "range_status", "extra_request_media"])
+            what = r.choice(["unsupported_request_media", "unsupported_response_media", "default_status", "range_status", "extra_request_media", "second_json_media", "second_json_media"])
             if what == "unsupported_request_media":
                 op.setdefault("requestBody", {"content": {}}) if "$ref" not in (op.get("requestBody") or {}) else None
                 if isinstance(op.get("requestBody"), dict) and "content" in op["requestBody"]:
@@ -58,6 +59,13 @@ def main() -> int:
                 if isinstance(op.get("requestBody"), dict) and "content" in op["requestBody"]:
                     op["requestBody"]["content"]["text/csv"] = {"schema": {"type": "string"}}
                     op["requestBody"]["content"]["application/json; charset=utf-8"] = {"schema": {"type": "integer"}}
+            elif what == "second_json_media":
+                # two media types of the same body kind with different schemas: each needs its own dispatch branch
+                op["requestBody"] = {"content": {"application/json": {"schema": {"type": "object", "properties": {"zq_full": {"type": "string"}}, "required": ["zq_full"]}},
+                                                 "application/merge-patch+json": {"schema": {"type": "object", "properties": {"zq_patch": {"type": "integer"}}, "required": ["zq_patch"]}}}}
+                if r.random() < 0.5:
+                    op["requestBody"]["content"]["multipart/form-data"] = {"schema": {"type": "object", "properties": {"zq_part": {"type": "string"}}, "required": ["zq_part"]}}
+                behavioural = True
             elif what == "unsupported_response_media":
                 op["responses"]["418"] = {"description": "teapot", "content": {"application/xml": {"schema": {"type": "string"}}}}
             elif what == "default_status":
@@ -91,7 +99,8 @@ def main() -> int:
             for g in group:
                 d["components"]["schemas"][g] = {"type": "object", "properties": {"a": {"type": "string"}}}
             descs.append({"position": "colliding_schema_names", "names": group})
-        j = run.job(d, want=["manifest", "tree"], sandbox=[{"a": "getattr", "module": "models", "name": "__all__"}], cfg={"generate_all_tags": i % 3 == 0})
+        j = run.job(d, want=["manifest", "tree"], sandbox=[{"a": "getattr", "module": "models", "name": "__all__"}], cfg={"generate_all_tags": i % 3 == 0},
+                    **({"plan": {"fn": "ops", "args": {"seed": i, "calls_per_op": 3, "import": False}}} if behavioural else {}))
         info[j["id"]] = (f"random:{i}", descs)
         jobs.append(j)
     rs = run.map(jobs, timeout=300)
@@ -145,6 +154,23 @@ def main() -> int:
                     vd.violation("operation_dropped_silently", f"{m.upper()} {path} has no generated endpoint and no diagnostic names it", w)
                 else:
                     ev.count("operations_diagnosed")
+        # ---- request media types at run time: calling with the body of each generated media type sends that media type
+        from .. import expect
+        from ..harness import actions_results
+        for a, x in actions_results(res):
+            if a["a"] != "call" or x.get("action_exc") or not (a["x"].get("body") or {}).get("media") or a["x"]["body"].get("ambiguous_dispatch") or a["x"]["body"].get("n_bodies", 1) < 2:
+                continue
+            for variant, vr in x.items():
+                if vr.get("missing"):
+                    continue
+                ev.count("multi_body_calls")
+                reqs = vr.get("requests") or []
+                if not reqs:
+                    continue
+                for eff, det in expect.check_request(reqs[0], a["x"]):
+                    if "body" in eff or "form" in eff or "part" in eff or "content_type" in eff:
+                        vd.violation("request_media_type_not_handled_by_function", f"{a['module']}.{variant}: body documented as {a['x']['body']['media']}: {det}", dict(w, action={k: v for k, v in a.items() if k != 'x'}))
+                        break
         # ---- endpoint files
         for tag in {e["tag"] for e in man.get("endpoints") or []}:
             want = len([e for e in man["endpoints"] if e["tag"] == tag])
